@@ -112,9 +112,19 @@ impl<'a> Layer<'a> {
     /// Returns if this layer is visible. This requires that this layer and all
     /// of its parent layers are visible.
     pub fn is_visible(&self) -> bool {
-        let layer_is_visible = self.data().flags.contains(LayerFlags::VISIBLE);
-        let parent_is_visible = self.parent().map(|p| p.is_visible()).unwrap_or(true);
-        layer_is_visible && parent_is_visible
+        // Walk up the ancestors iteratively; groups can be nested deeply enough
+        // to overflow the stack with a recursive implementation.
+        let layers = &self.file.layers;
+        let mut id = self.layer_id;
+        loop {
+            if !layers[id].flags.contains(LayerFlags::VISIBLE) {
+                return false;
+            }
+            match layers.parents[id as usize] {
+                Some(parent) => id = parent,
+                None => return true,
+            }
+        }
     }
 
     /// Get a reference to the Cel for this frame in the layer.
